@@ -1,6 +1,7 @@
 # SPDX-License-Identifier: BSD-3-Clause
 # Copyright (c) 2024 Osyris contributors (https://github.com/osyris-project/osyris)
 import numpy as np
+from pint.errors import DimensionalityError
 
 from .layer import Layer
 from .tools import bytes_to_human_readable
@@ -54,7 +55,16 @@ class Datagroup:
         if self.keys() != other.keys():
             return False
         for key, value in self.items():
-            if all(value != other[key]):
+            if type(value) is not type(other[key]):
+                return False
+            try:
+                equal = value == other[key]
+            except (DimensionalityError, ValueError):
+                # Incompatible units or shapes that cannot be broadcast
+                return False
+            # A Vector comparison yields a Vector of boolean components
+            parts = equal._xyz.values() if hasattr(equal, "_xyz") else [equal]
+            if not all(np.all(part.values) for part in parts):
                 return False
         return True
 
